@@ -61,14 +61,49 @@ func sortedMapPairs(m map[int]int) [][2]int {
 
 func (c14) step(t []string) string {
 	switch t[0] {
-	case "fold":
+	case "fold", "foldrev":
+		// the accumulator also LOOKS at the input while the fold runs ("none of them modifies its input": not even temporarily)
 		in := parseInts(t[1])
-		r := slices.Fold(in, atoi(t[2]), accF)
-		return itoa(r) + " " + fmtInts(in)
-	case "foldrev":
+		snap := append([]int(nil), in...)
+		during := ""
+		acc := func(s, v int) int {
+			for i := range in {
+				if in[i] != snap[i] {
+					during = " input-differs-during-the-call"
+				}
+			}
+			return accF(s, v)
+		}
+		var r int
+		if t[0] == "fold" {
+			r = slices.Fold(in, atoi(t[2]), acc)
+		} else {
+			r = slices.FoldReverse(in, atoi(t[2]), acc)
+		}
+		return itoa(r) + " " + fmtInts(in) + during
+	case "foldpanic", "foldrevpanic":
+		// <list> <seed> <k>: the accumulator panics on its k-th call (k >= 1); the caller recovers: the input is what it was
 		in := parseInts(t[1])
-		r := slices.FoldReverse(in, atoi(t[2]), accF)
-		return itoa(r) + " " + fmtInts(in)
+		k, calls := atoi(t[3]), 0
+		acc := func(s, v int) int {
+			calls++
+			if calls == k {
+				panic("acc-panics")
+			}
+			return accF(s, v)
+		}
+		res := func() (out string) {
+			defer func() {
+				if recover() != nil {
+					out = "panic:custom"
+				}
+			}()
+			if t[0] == "foldpanic" {
+				return itoa(slices.Fold(in, atoi(t[2]), acc))
+			}
+			return itoa(slices.FoldReverse(in, atoi(t[2]), acc))
+		}()
+		return res + " " + fmtInts(in)
 	case "map":
 		in := parseInts(t[1])
 		r := slices.Map(in, func(v int) int { return 2*v + 1 })
